@@ -428,9 +428,10 @@ func main() {
 	}
 	if p := os.Getenv("GOSYM_CPUPROFILE"); p != "" {
 		f, _ := os.Create(p)
-		pprof.StartCPUProfile(f)
-		defer pprof.StopCPUProfile()
+		delay, _ := strconv.Atoi(os.Getenv("GOSYM_PROFILE_DELAY"))
 		go func() {
+			time.Sleep(time.Duration(delay) * time.Second)
+			pprof.StartCPUProfile(f)
 			time.Sleep(40 * time.Second)
 			pprof.StopCPUProfile()
 			f.Close()
